@@ -292,7 +292,7 @@ def split_traces(lines):
 
 def save_replay(ctx, name, lines, info):
     os.makedirs(REPLAYS, exist_ok=True)
-    p = os.path.join(REPLAYS, "%s_%s_seed%d_%s.ndjson" % (ctx.prop, ctx.tier, ctx.seed, name))
+    p = os.path.join(REPLAYS, "%s_%s_seed%d_%s.ndjson" % (getattr(ctx, "family", None) or ctx.prop, ctx.tier, ctx.seed, name))
     with open(p, "w") as f:
         f.write("\n".join(lines) + "\n")
     with open(p + ".info.json", "w") as f:
@@ -404,6 +404,10 @@ def classify_for(prop):
     the model that is not a property failure; invariants are named
     <PID>_<name>.  Unprefixed reasons count for `prop`."""
     def f(reason, invariant, failing, trace_lines):
+        if prop == "ALL":
+            # family run shared by several properties: record every verdict,
+            # the per-property filter is applied afterwards (family_cached)
+            return "nonconformance" if reason.startswith("NC:") else "violation"
         k = known_match(prop, reason, failing)
         if k:
             return "known:" + k
@@ -429,6 +433,75 @@ def sample_lines(path, n=6, maxlen=400):
         except Exception:
             out.append(ln[:maxlen])
     return out
+
+
+# --------------------------------------------------------------------------
+# Families: several properties decided from the same drivers and traces
+
+def family_cached(ctx, name, key_paths, runner):
+    """Run `runner(fctx)` once per (contents of key_paths, seed, tier, REPO) and
+    re-use its recorded verdicts for the other properties of the family.
+
+    fctx is a context with prop "ALL" (see classify_for): every verdict is
+    recorded with its reason; here the verdicts are filtered for ctx.prop.
+    key_paths must include the compiled driver binary, so that the key covers
+    every source file of /repo the drivers depend on."""
+    import fcntl
+    import hashlib
+    h = hashlib.sha256()
+    for p in key_paths:
+        h.update(open(p, "rb").read())
+    h.update(("%s|%s|%s|%s" % (name, ctx.seed, ctx.tier, REPO)).encode())
+    key = h.hexdigest()[:24]
+    cdir = os.path.join(VERIF, ".cache")
+    os.makedirs(cdir, exist_ok=True)
+    cpath = os.path.join(cdir, "%s_%s.json" % (name, key))
+    with open(cpath + ".lock", "w") as lk:
+        fcntl.flock(lk, fcntl.LOCK_EX)
+        res = None
+        if os.path.exists(cpath):
+            try:
+                res = json.load(open(cpath))
+                if not all(os.path.exists(v["replay"]) for v in res["violations"]):
+                    res = None
+            except Exception:
+                res = None
+        if res is None:
+            fctx = Ctx("ALL", ctx.tier, ctx.seed)
+            fctx.family = name
+            try:
+                extra = runner(fctx)
+                res = {"violations": fctx.violations, "cov": fctx.cov, "assumptions": fctx.assumptions, "extra": extra}
+                json.dump(res, open(cpath, "w"))
+            finally:
+                fctx.cleanup()
+        else:
+            log("%s: re-using the validation of identical binary/specs/seed/tier (%s)" % (name, key))
+    classify = classify_for(ctx.prop)
+    for k, v in res["cov"].items():
+        if isinstance(v, bool):
+            ctx.cov[k] = v
+        elif isinstance(v, int) and isinstance(ctx.cov.get(k, 0), int):
+            ctx.cov[k] = ctx.cov.get(k, 0) + v
+        elif isinstance(v, list) and isinstance(ctx.cov.get(k, []), list):
+            ctx.cov[k] = ctx.cov.get(k, []) + v
+        elif isinstance(v, dict) and isinstance(ctx.cov.get(k, {}), dict):
+            d = ctx.cov.setdefault(k, {})
+            for kk, vv in v.items():
+                d[kk] = d.get(kk, 0) + vv if isinstance(vv, int) and isinstance(d.get(kk, 0), int) else vv
+        else:
+            ctx.cov[k] = v
+    ctx.assumptions += [a for a in res.get("assumptions", []) if a not in ctx.assumptions]
+    for v in res["violations"]:
+        kind = classify(v["reason"], "VerdictOK", v.get("line", {}), [])
+        if kind == "violation":
+            ctx.violations.append(v)
+        elif kind.startswith("known:"):
+            ctx.known_hits.append(kind[6:])
+        elif kind == "other":
+            ctx.cov["other_property_verdicts"] = ctx.cov.get("other_property_verdicts", 0) + 1
+            log("  NOTE other-property verdict %s (not decided by the %s check)" % (v["reason"], ctx.prop))
+    return res.get("extra")
 
 
 # --------------------------------------------------------------------------
